@@ -16,7 +16,7 @@ def register(add):
              'complete for every operand length an AUTO-allocated bn_t of that configuration can hold')
     NOTE = ('the digit-level division kernel (%s) is an ASSUMED contract returning an abstract quotient/remainder pair with R < |b|: '
             'proved is the floor fix-up, the short cut for |a| < |b|, what the kernel is asked, normal form, error reporting and the frame')
-    CAL = ['bn_cmp_abs', 'bn_sign', 'bn_zero', 'bn_copy', 'bn_set_dig', 'bn_neg', 'bn_add', 'bn_abs', 'bn_trim', 'bn_is_zero', 'bn_sub_dig', 'bn_sub',
+    CAL = ['bn_cmp_abs', 'bn_sign', 'bn_zero', 'bn_copy', 'bn_set_dig', 'bn_neg', 'bn_add', 'bn_abs', 'bn_trim', 'bn_is_zero', 'bn_sub_dig', 'bn_add_dig', 'bn_sub',
            'bn_divn_low/bn_divn_low_abs']
     common = dict(headers=H, route='proof', unwind=N, conf=CONF, timeout=900, bound_note=BOUND, flags=['--object-bits', '10'])
     for sh, mac in DS:
